@@ -285,4 +285,79 @@ def Sys.run {Src Ck Code Cfg : Type} [DecidableEq Ck] (lc : LoadCfg) (cd : Codec
     let rs := Sys.run lc cd compile r.1 ops
     (rs.1, r.2 :: rs.2)
 
+/-! ## extras used by the correspondence runs: a damaged entry, and the memcached backend with a faulty client -/
+
+inductive Client where
+  | ok
+  | getFails
+  | setFails
+  | truncates (k : Nat)      -- `get` returns only the first k bytes of what was stored
+  deriving Repr, DecidableEq
+
+/-- what the fake client raises -/
+def clientExc : Exc := ["ConnectionError", "OSError", "Exception", "BaseException"]
+
+/-- `BaseLoader.load` over a `MemcachedBytecodeCache` (bccache.py:384-404) whose handlers catch `caughtGet`/`caughtSet` -/
+def Sys.stepMc {Src Ck Code Cfg : Type} [DecidableEq Ck] (lc : LoadCfg) (cd : Codec Src Ck Code) (compile : Cfg → Src → Code)
+    (caughtGet caughtSet : List String) (ignore : Bool) (cl : Client) (s : Sys Src) (cfg : Cfg) (n : Nat) : Sys Src × Out Code :=
+  let cur := s.src n
+  let fresh := compile cfg cur
+  let entry := writeBytecode cd.magic cd.encCk cd.encCode (cd.hash cur) fresh
+  let stored := (s.cache n).getD []
+  let got : ClientGet := match cl with
+    | .getFails => .fails clientExc
+    | .truncates k => .value (stored.take k)
+    | _ => .value stored
+  match mcLoad lc caughtGet ignore cd.pl cd.ml (cd.hash cur) got with
+  | .hit code => (s, .served code)
+  | .raises e => (s, .raised e)
+  | .miss =>
+    match cl with
+    | .setFails => if catches caughtSet clientExc && ignore then (s, .served fresh) else (s, .raised clientExc)
+    | _ => (s.store n entry, .served fresh)
+
+inductive XOp (Src Cfg : Type) where
+  | base (op : Op Src Cfg)
+  | truncate (name k : Nat)                                     -- the stored entry loses everything after k bytes
+  | mcLoad (cfg : Cfg) (name : Nat) (ignore : Bool) (cl : Client)
+
+def Sys.stepX {Src Ck Code Cfg : Type} [DecidableEq Ck] (lc : LoadCfg) (cd : Codec Src Ck Code) (compile : Cfg → Src → Code)
+    (caughtGet caughtSet : List String) (s : Sys Src) : XOp Src Cfg → Sys Src × Out Code
+  | .base op => Sys.step lc cd compile s op
+  | .truncate n k => ({ s with cache := fun m => if m = n then (s.cache n).map (·.take k) else s.cache m }, .none)
+  | .mcLoad cfg n ig cl => Sys.stepMc lc cd compile caughtGet caughtSet ig cl s cfg n
+
+def Sys.runX {Src Ck Code Cfg : Type} [DecidableEq Ck] (lc : LoadCfg) (cd : Codec Src Ck Code) (compile : Cfg → Src → Code)
+    (caughtGet caughtSet : List String) (s : Sys Src) : List (XOp Src Cfg) → List (Out Code)
+  | [] => []
+  | op :: ops =>
+    let r := Sys.stepX lc cd compile caughtGet caughtSet s op
+    r.2 :: Sys.runX lc cd compile caughtGet caughtSet r.1 ops
+
+/-! ## the configuration READ from the source, and a small concrete codec (checksum and code are one byte each) used by
+    the examples and by the end-to-end correspondence -/
+
+open JinjaV.Gen.BcCacheSites
+
+def caughtAt (call : String) : List String :=
+  match decoderSites.find? (fun s => s.call == call) with
+  | some s => s.caught
+  | none => []
+
+/-- `Bucket.load_bytecode` with the handlers as they are in the source now -/
+def genCfg (magic : Bytes) : LoadCfg :=
+  { magic := magic, pickleCaught := caughtAt "pickle.load", marshalCaught := caughtAt "marshal.load" }
+
+def mcCaught (call : String) : List String :=
+  match mcGuards.find? (fun g => g.call == call) with
+  | some g => g.caught
+  | none => []
+
+def exDec : Bytes → Dec Nat
+  | [] => .raise (mroOf "EOFError")
+  | x :: r => .ok x r
+
+def exCodec : Codec Nat Nat Nat :=
+  { magic := [7, 7], hash := id, encCk := fun n => [n], encCode := fun n => [n], pl := exDec, ml := exDec }
+
 end JinjaV.BcCache
